@@ -2593,6 +2593,331 @@ def h_crash_states(ctx):
             ctx.ob("initialize_empty in _load lies on no feasible path from the open() of the state file", True, lf, c)
 
 
+# ---------------------------------------------------------------------------
+# C12.i: what an unauthenticated message may leave behind
+#
+# "Messages that fail authentication never mark or advance the window, so a forgery cannot block the genuine request",
+# and "[unprotection] succeeds for any authentic number above everything seen so far": whether a request is accepted may
+# depend on the message itself and on what *authenticated* messages left in the security context, on nothing else.  A
+# necessary condition that needs no knowledge of any particular mechanism: on a path of unprotect on which the AEAD has
+# not (yet) returned normally -- before the decrypt call, or in its exception handler -- nothing that outlives the call
+# is written: no attribute or element of the context (`self`), of an object reached from it (through attribute chains,
+# subscripts, element accessors, methods of the context that hand out such an object, local aliases of any of these,
+# loop variables over them), or of a module-level object.  It is an invariant over ALL writers (assignment, augmented
+# assignment, del, setattr/delattr, every mutating container method, a mutating method taken as a value, methods of the
+# context and of its subclasses that write, methods of package classes that write their own `self` called on a reached
+# object); the window mutators that C12.a places after decrypt are simply four of them.  State that is only *read*
+# before decrypt (keys, ids, the window tests) is untouched by this clause, as are writes to locals, to fresh objects
+# and to the message / request-id objects handed in by the caller (they do not belong to the context).
+
+_MUTATING = {"pop", "append", "remove", "add", "update", "setdefault", "insert", "clear", "popitem", "extend", "discard", "popleft",
+             "appendleft", "extendleft", "rotate", "sort", "reverse", "move_to_end", "subtract", "difference_update",
+             "intersection_update", "symmetric_difference_update", "__setitem__", "__delitem__", "__setattr__", "__delattr__",
+             "__iadd__", "__ior__", "put", "put_nowait", "set_result", "set_exception"}
+_ELEMENT_ACCESS = {"get", "setdefault", "pop", "popitem", "popleft", "values", "items", "keys", "__getitem__"}
+_BUILTIN_NAMES = set(dir(__import__("builtins")))
+
+
+def _local_names(fnode):
+    a = fnode.args
+    out = {x.arg for x in a.posonlyargs + a.args + a.kwonlyargs}
+    for x in (a.vararg, a.kwarg):
+        if x is not None:
+            out.add(x.arg)
+    declared_global = set()
+    for n in walk_no_nested(fnode):
+        if isinstance(n, ast.Name) and isinstance(n.ctx, (ast.Store, ast.Del)):
+            out.add(n.id)
+        elif isinstance(n, ast.ExceptHandler) and n.name:
+            out.add(n.name)
+        elif isinstance(n, (ast.Global, ast.Nonlocal)):
+            declared_global.update(n.names)
+        elif isinstance(n, (ast.FunctionDef, ast.AsyncFunctionDef, ast.ClassDef)) and n is not fnode:
+            out.add(n.name)
+        elif isinstance(n, (ast.Import, ast.ImportFrom)):
+            for al in n.names:
+                out.add((al.asname or al.name).split(".")[0])
+    return out - declared_global, declared_global
+
+
+class Lasting:
+    """Which constructs of a function write state that outlives the call (see C12.i)."""
+
+    def __init__(self, prog, root_cls, shared=None):
+        self.prog = prog
+        self.root_cls = root_cls  # ClassInfo whose instances `self` denotes (with all subclasses)
+        self.family = [root_cls.qn] + [c for c in prog.subclasses(root_cls.qn) if c != root_cls.qn] if root_cls is not None else []
+        self._effects = {}
+        self._busy = set()
+        self._per_cls = {}
+        # method name -> [FuncInfo] over all package classes (for calls on objects reached from the context)
+        self.top = shared.top if shared is not None else self
+        if shared is not None:
+            self.by_name = shared.by_name
+        else:
+            self.by_name = {}
+            for ci in prog.classes.values():
+                for nm, f in ci.methods.items():
+                    self.by_name.setdefault(nm, []).append(f)
+
+    def for_class(self, ci):
+        """The analysis in which `self` denotes an instance of another package class."""
+        top = self.top
+        if top.root_cls is not None and ci.qn == top.root_cls.qn:
+            return top
+        if ci.qn not in top._per_cls:
+            top._per_cls[ci.qn] = Lasting(self.prog, ci, shared=top)
+        return top._per_cls[ci.qn]
+
+    def defs_of(self, name):
+        """Every definition `self.<name>(...)` may run: the one the root class sees and every override below it."""
+        out = []
+        for q in self.family:
+            g = self.prog.lookup_method(q, name)
+            if g is not None and all(g is not h for h in out):
+                out.append(g)
+        return out
+
+    # -- which expressions denote lasting state ---------------------------------------------------------------
+    def _scope(self, fi):
+        loc, glob = _local_names(fi.node)
+        p = fi.parent
+        outer = set()
+        while p is not None:  # names of enclosing functions are not module-level objects
+            outer |= _local_names(p.node)[0]
+            p = p.parent
+        first = params(fi, skip_self=False)[:1]
+        selfname = first[0] if fi.cls is not None and first and first[0] in ("self", "cls") else None
+        return loc, glob, outer, selfname
+
+    def tainted(self, fi):
+        """Locals of fi that may hold (an element of) lasting state; fixed point over all bindings."""
+        loc, glob, outer, selfname = self._scope(fi)
+        t = {}  # name -> grade (2: reached from the context, 1: reached from a module-level object)
+
+        def bind(target, value):
+            ch = False
+            if isinstance(target, ast.Name):
+                g_ = self.grade(fi, value, t, (loc, glob, outer, selfname))
+                if g_ > t.get(target.id, 0):
+                    t[target.id] = g_
+                    ch = True
+            elif isinstance(target, (ast.Tuple, ast.List)):
+                if isinstance(value, (ast.Tuple, ast.List)) and len(value.elts) == len(target.elts) and not any(isinstance(x, ast.Starred) for x in list(value.elts) + list(target.elts)):
+                    for a_, b_ in zip(target.elts, value.elts):
+                        ch |= bind(a_, b_)
+                else:
+                    for a_ in target.elts:
+                        ch |= bind(a_.value if isinstance(a_, ast.Starred) else a_, value)
+            return ch
+
+        changed = True
+        while changed:
+            changed = False
+            for n in walk_no_nested(fi.node):
+                if isinstance(n, ast.Assign):
+                    for tg in n.targets:
+                        changed |= bind(tg, n.value)
+                elif isinstance(n, ast.AnnAssign) and n.value is not None:
+                    changed |= bind(n.target, n.value)
+                elif isinstance(n, ast.NamedExpr):
+                    changed |= bind(n.target, n.value)
+                elif isinstance(n, (ast.For, ast.AsyncFor)):
+                    changed |= bind(n.target, n.iter)
+                elif isinstance(n, ast.comprehension):
+                    changed |= bind(n.target, n.iter)
+                elif isinstance(n, (ast.With, ast.AsyncWith)):
+                    for it in n.items:
+                        if it.optional_vars is not None:
+                            changed |= bind(it.optional_vars, it.context_expr)
+        return t, (loc, glob, outer, selfname)
+
+    def is_state(self, fi, e, t, scope):
+        return self.grade(fi, e, t, scope) > 0
+
+    def grade(self, fi, e, t, scope):
+        """2: the expression denotes the context or something reached from it; 1: a module-level object or something
+        reached from it; 0: a local / fresh value / something the caller handed in."""
+        loc, glob, outer, selfname = scope
+        G = lambda x: self.grade(fi, x, t, scope)
+        if isinstance(e, ast.Name):
+            if e.id == selfname:
+                return 2
+            if e.id in t:
+                return t[e.id]
+            if e.id in glob:
+                return 1
+            if e.id in loc or e.id in outer or e.id in _BUILTIN_NAMES:
+                return 0
+            return 1  # a module-level object (a container, a class, an imported module): it outlives the call
+        if isinstance(e, (ast.Attribute, ast.Subscript, ast.Starred, ast.NamedExpr, ast.Await)):
+            return G(e.value)
+        if isinstance(e, ast.IfExp):
+            return max(G(e.body), G(e.orelse))
+        if isinstance(e, ast.BoolOp):
+            return max(G(v) for v in e.values)
+        # a tuple / list / dict / set display or comprehension is a fresh container: changing IT changes nothing that
+        # lasts (its elements are bound pairwise by tainted(); returns_state() looks into a returned tuple)
+        if isinstance(e, ast.Call):
+            cn = chain(e.func)
+            if cn in ("vars", "iter", "reversed", "enumerate", "next", "getattr") and e.args:
+                return G(e.args[0])
+            if cn == "zip":
+                return max([G(a_) for a_ in e.args], default=0)
+            if cn == "globals" and not e.args:
+                return 1
+            if isinstance(e.func, ast.Attribute):
+                recv = e.func.value
+                if (isinstance(recv, ast.Name) and recv.id == selfname) or (isinstance(recv, ast.Call) and chain(recv.func) == "super"):
+                    return max([self.returns_state(g) for g in self.defs_of(e.func.attr)], default=0)
+                if e.func.attr in _ELEMENT_ACCESS:
+                    return G(recv)
+            return 0  # the result of any other call is taken to be a fresh value
+        return 0
+
+    def returns_state(self, g):
+        """Grade of what the method hands out (see grade())."""
+        key = ("r", id(g.node))
+        if key in self._effects:
+            return self._effects[key]
+        if key in self._busy:
+            return 0
+        self._busy.add(key)
+        res = 0
+        try:
+            t, scope = self.tainted(g)
+            for n in walk_no_nested(g.node):
+                if isinstance(n, ast.Return) and n.value is not None:
+                    v = n.value
+                    if isinstance(v, ast.Name) and v.id == scope[3]:
+                        continue  # `return self` (fluent style) hands out nothing new
+                    for x in (v.elts if isinstance(v, (ast.Tuple, ast.List)) else [v]):
+                        res = max(res, self.grade(g, x, t, scope))
+                elif isinstance(n, (ast.Yield, ast.YieldFrom)) and n.value is not None:
+                    res = max(res, self.grade(g, n.value, t, scope))
+        finally:
+            self._busy.discard(key)
+        self._effects[key] = res
+        return res
+
+    # -- writers -------------------------------------------------------------------------------------------
+    def effects(self, fi):
+        """[(construct, text)]: constructs of fi (outside nested defs) that write lasting state, directly or by calling
+        something that does."""
+        key = ("e", id(fi.node))
+        if key in self._effects:
+            return self._effects[key]
+        if key in self._busy:
+            return []
+        self._busy.add(key)
+        out = []
+        try:
+            t, scope = self.tainted(fi)
+            selfname = scope[3]
+
+            def st(e):
+                return self.is_state(fi, e, t, scope)
+
+            def store_target(tt):
+                if isinstance(tt, (ast.Tuple, ast.List)):
+                    return any(store_target(x) for x in tt.elts)
+                if isinstance(tt, ast.Starred):
+                    return store_target(tt.value)
+                if isinstance(tt, (ast.Attribute, ast.Subscript)):
+                    return st(tt.value)
+                if isinstance(tt, ast.Name):
+                    return tt.id in scope[1]  # declared global / nonlocal
+                return False
+
+            called = set()
+            for n in walk_no_nested(fi.node):
+                if isinstance(n, ast.Call):
+                    called.add(id(n.func))
+            for n in walk_no_nested(fi.node):
+                if isinstance(n, (ast.Assign, ast.AugAssign, ast.AnnAssign)):
+                    if isinstance(n, ast.AnnAssign) and n.value is None:
+                        continue
+                    targets = n.targets if isinstance(n, ast.Assign) else [n.target]
+                    if any(store_target(x) for x in targets):
+                        out.append((n, "store"))
+                elif isinstance(n, ast.NamedExpr):
+                    if store_target(n.target):
+                        out.append((n, "store"))
+                elif isinstance(n, ast.Delete):
+                    if any(store_target(x) for x in n.targets):
+                        out.append((n, "del"))
+                elif isinstance(n, (ast.For, ast.AsyncFor)):
+                    if store_target(n.target):
+                        out.append((n, "store by loop target"))
+                elif isinstance(n, ast.Call):
+                    cn = chain(n.func)
+                    if cn in ("setattr", "delattr") and n.args and st(n.args[0]):
+                        out.append((n, cn))
+                        continue
+                    if cn in ("object.__setattr__", "object.__delattr__") and n.args and st(n.args[0]):
+                        out.append((n, cn))
+                        continue
+                    if not isinstance(n.func, ast.Attribute):
+                        continue
+                    recv, m = n.func.value, n.func.attr
+                    is_self = (isinstance(recv, ast.Name) and recv.id == selfname) or (isinstance(recv, ast.Call) and chain(recv.func) == "super")
+                    if is_self:
+                        for g in self.defs_of(m):
+                            sub = self.effects(g)
+                            if sub:
+                                out.append((n, "%s writes: %s" % (g.short, stmt_text(sub[0][0], 80))))
+                                break
+                        else:
+                            if m in _MUTATING and not self.defs_of(m):
+                                out.append((n, "mutating method on the context itself"))
+                        continue
+                    if not st(recv):
+                        continue
+                    if m in _MUTATING:
+                        out.append((n, "mutating method %s" % m))
+                        continue
+                    if m in _ELEMENT_ACCESS:
+                        continue
+                    rc = chain(recv)
+                    if rc is not None and rc.split(".")[0] != selfname and rc.split(".")[0] not in t:
+                        continue  # `module.f(...)`, `pkg.mod.Class.m(...)`: a function, not a method of a lasting object
+                    # a method of a package class called on an object reached from the context: does it write its own self?
+                    for g in self.by_name.get(m, ()):
+                        if g.cls is None:
+                            continue
+                        sub = self.for_class(g.cls).effects(g)
+                        if sub:
+                            out.append((n, "%s writes: %s" % (g.short, stmt_text(sub[0][0], 80))))
+                            break
+                elif isinstance(n, ast.Attribute) and isinstance(n.ctx, ast.Load) and n.attr in _MUTATING and id(n) not in called and st(n.value):
+                    if not (isinstance(n.value, ast.Name) and n.value.id == selfname and self.defs_of(n.attr)):
+                        out.append((n, "mutating method %s taken as a value" % n.attr))
+        finally:
+            self._busy.discard(key)
+        self._effects[key] = out
+        return out
+
+
+@R.clause("C12.i", "a message that has not been authenticated leaves nothing behind: unprotect writes state that outlives the call (the context, anything reached from it, module-level objects) only after the AEAD decrypt returned normally")
+def i_no_trace(ctx):
+    u = _unprotect(ctx)
+    fi, cfg = u.fi, u.cfg
+    ctx.need(fi.cls is not None, "unprotect is not a method")
+    la = Lasting(ctx.prog, fi.cls)
+    eff = la.effects(fi)
+    ctx.extra["C12.i lasting writes in unprotect"] = ["%s (%s)" % (stmt_text(n, 80), why) for n, why in eff]
+    # the writers C12.a knows must be among them: otherwise this clause does not see what it claims to see
+    seen = {id(n) for n, _ in eff}
+    ctx.need(all(id(c) in seen for c in u.strikes + u.inits), "the replay window calls of unprotect are not recognised as writers of lasting state")
+    for n, why in eff:
+        locs = cfg.locate(n)
+        ctx.need(bool(locs), "a writer of lasting state in unprotect has no place in its flow graph: %s" % stmt_text(n, 80))
+        bad = [x for x in locs if cfg.is_reachable(x) and not after_normal(cfg, u.dec, x)]
+        ctx.ob("state that outlives unprotect is written only after the AEAD decrypt call returned normally (%s)" % why.split(":")[0],
+               not bad, fi, n,
+               detail=None if not bad else "%s; path without successful decryption: %s" % (why, witness(cfg, cfg.entry, bad[0], cut_normal=u.dec)))
+
+
 F = "aiocoap/oscore.py"
 
 _DECRYPT_BLOCK = (
@@ -2790,3 +3115,22 @@ R.seed("C12.h", F, _H_REPLACE,
        '            os.remove(target)\n'
        '        os.rename(tmpnam, target)\n',
        "remove-then-rename: a crash in between leaves no state file, which _load takes for a never-used context")
+
+# C12.i: every family of writer, before the decrypt call and in its exception handler
+_UNSUPPORTED = '        if unprotected:\n            raise DecodeError("Unsupported unprotected option")\n'
+_FAILED = '            _alglog.debug("Unprotecting failed")\n'
+R.seed("C12.i", F, _FAILED, _FAILED + "            self.last_failed_piv = partial_iv_short\n",
+       "the context remembers the number of a message that failed authentication")
+R.seed("C12.i", F, _UNSUPPORTED,
+       _UNSUPPORTED +
+       '        seen_pivs = self.__dict__.setdefault("_seen_pivs", set())\n'
+       '        if not is_response and partial_iv_short in seen_pivs:\n'
+       '            raise ProtectionInvalid("Repeated partial IV")\n'
+       '        seen_pivs.add(partial_iv_short)\n',
+       "de-duplication by partial IV before authentication (through a local alias of a set kept in the context): a forgery blocks the genuine request")
+R.seed("C12.i", F, _FAILED, _FAILED + '            globals().setdefault("_FAILED_PIVS", set()).add(partial_iv_short)\n',
+       "failed numbers collected in a module-level set")
+R.seed("C12.i", F, "        return self.recipient_key\n", "        self.last_key_use = protected_message.opt.oscore\n        return self.recipient_key\n",
+       "a method of the context that unprotect calls before decrypting records the (unauthenticated) OSCORE option")
+R.seed("C12.i", F, _FAILED, _FAILED + "            note_failure = self.failure_log.append\n            note_failure(seqno)\n",
+       "a mutating method of an object reached from the context taken as a value and called later")
